@@ -129,6 +129,7 @@ fn query(r: &mut Rng) -> (String, &'static str) {
         8 => ("* | json | count_distinct(s), min(x) by k | sort by k".into(), "explicit-sort"),
         9 => ("* | json | sort by n".into(), "raw-sort"),
         10 => ("* | json | count by arr".into(), "array-keys"),
+        12 if r.chance(50) => ((*r.pick(&["* | json | concat(\"t=\", tags) as c | fields c", "* | json | toUpperCase(meta) as c | fields c", "* | json | where contains(tags, \"\\\"b\\\": 2\") or contains(tags, \"b\") | count", "* | json | substring(tags, 0, 24) as head | count by head", "* | json | concat(meta, tags) as c | count_distinct(c)", "* | json | toLowerCase(deep) as c | count by c"])).to_string(), "nested-object-as-text"),
         12 => ((*r.pick(&["* | json | concat(o, \"\") as c | fields c", "* | json | toUpperCase(o) as c | fields c", "* | json | substring(m, 0, 40) as c | count by c", "* | json | concat(\"<\", o, arr, \">\") as c | count_distinct(c)"])).to_string(), "object-as-text"),
         11 => ((*r.pick(&["* | json | count by big", "* | json | count by big | total(_count) as t", "* | json | count, max(n) by big | limit 3", "* | json | sort by big"])).to_string(), "big-int-keys"),
         _ => (gen::json_pipeline(r, &gen::QueryCfg { allow_agg: true, allow_sort: true, max_stages: 4 }), "generated"),
@@ -159,6 +160,13 @@ pub fn check(ctx: &mut Ctx) {
         if family == "big-int-keys" {
             // 64-bit ids above 2^53 that are neighbours as integers but the same double
             input = (0..rows).map(|i| format!("{{\"big\":{},\"n\":{}}}\n", 1152921504606846976i64 + (i as i64 % 7), i % 3)).collect::<String>().into_bytes();
+        }
+        if family == "nested-object-as-text" {
+            // identical rows whose values hold objects ONE LEVEL DOWN (inside an array, inside an
+            // object, two levels deep), each with several entries: their text must not depend on the
+            // maps' private iteration order
+            let row = "{\"tags\":[{\"a\":1,\"b\":2,\"c\":3,\"d\":4,\"e\":5}],\"meta\":{\"in\":{\"w\":1,\"x\":2,\"y\":3,\"z\":4},\"k\":\"v\"},\"deep\":[[{\"p\":1,\"q\":2,\"r\":3,\"s\":4}],{\"u\":{\"m\":1,\"n\":2,\"o\":3}}],\"flat\":{\"a\":1,\"b\":2}}\n";
+            input = row.repeat(4 + r.below(6)).into_bytes();
         }
         if family == "agg-of-agg-float" {
             // many first-level groups whose non-integral values add up differently in different orders
